@@ -334,12 +334,20 @@ func (c *Ctx) c16WalkCase(w *c16World, id, root, table string) {
 	c.Case("%swalk %s %s %s %s", kind, id, w.enc, hx([]byte(root)), table)
 	std := c16Walk(filepath.Walk, w.osPath(root), w.rel, tb)
 	c.Impl("%s#std %s", id, std)
-	for _, i := range idx {
+	first := ""
+	for n, i := range idx {
 		fs := w.fss[i]
 		got := c16Walk(func(r string, fn filepath.WalkFunc) error { return afero.Walk(fs, r, fn) }, root, func(p string) string { return p }, tb)
 		c.Impl("%s%s %s", id, w.tags[i], got)
+		tag := w.tags[i] // the signature names the wrapper only when the wrapper changes the outcome
+		if n == 0 {
+			first = got
+		}
+		if got == first {
+			tag = ""
+		}
 		if got != std {
-			c.Oracle("FAIL %s %s tree=%s root=%q table=%s afero%s: %s | filepath: %s", id, c16WalkSig(w.tags[i], got, std), w.enc, root, table, w.tags[i], got, std)
+			c.Oracle("FAIL %s %s tree=%s root=%q table=%s afero%s: %s | filepath: %s", id, c16WalkSig(tag, got, std), w.enc, root, table, w.tags[i], got, std)
 		}
 	}
 	c.Count("walk.result=" + stripE(std[strings.LastIndex(std, " r=")+3:]))
@@ -428,19 +436,27 @@ func (c *Ctx) c16GlobCase(w *c16World, id, pat string) {
 	std := c16GlobS(m, err, w.rel)
 	c.Impl("%s#std %s", id, std)
 	wf := c16WellFormed(pat)
-	for _, i := range idx {
+	first := ""
+	for n, i := range idx {
 		fs := w.fss[i]
 		m, err := afero.Glob(fs, pat)
 		got := c16GlobS(m, err, func(p string) string { return p })
 		c.Impl("%s%s %s", id, w.tags[i], got)
+		tag := strings.Replace(w.tags[i], "#", "@", 1)
+		if n == 0 {
+			first = got
+		}
+		if got == first {
+			tag = ""
+		}
 		if got != std {
 			if wf {
-				sig := "glob" + strings.Replace(w.tags[i], "#", "@", 1) + ":matches"
+				sig := "glob" + tag + ":matches"
 				if strings.HasSuffix(got, "r=-") != strings.HasSuffix(std, "r=-") {
-					sig = "glob" + strings.Replace(w.tags[i], "#", "@", 1) + ":error"
+					sig = "glob" + tag + ":error"
 				}
 				c.Oracle("FAIL %s %s tree=%s pattern=%q afero%s: %s | filepath: %s", id, sig, w.enc, pat, w.tags[i], got, std)
-			} else if i == idx[0] {
+			} else if n == 0 {
 				c.Count("glob.not-wellformed.afero-differs-from-std(no oracle)")
 			}
 		}
